@@ -44,6 +44,10 @@ def run(ctx) -> None:
         ctx.check(ok, "C12.A1.written-together", "MatchedObserver.regex_matched",
                   f"initial={m0!r} after2={m!r} addr_list={al!r}"[:160],
                   "initially (False, []); every report sets matched and appends exactly one entry")
+    # A6: first-match = head of all-matches rests on the API pair: one regex.search / one regex.finditer over the same
+    # pattern and stream, each element reported as its group(0) (a findall/split-style API reports other things)
+    from ._matchrules import scan_rules
+    scan_rules(ctx, "C12.A6.search-and-finditer-pair", "C12.A6.same-whole-stream", "C12.A6.group0-reported")
     # A2
     I = match_interp(ctx.p)
     sc = match_scenarios(I)
